@@ -32,6 +32,7 @@ def check(tier, replay):
         mc=[("MC_GRImage.tla", "MC_GRImage.cfg")],
         gens=[("one behaviour per transition: every rectangle/stride inside 2x2 and 3x2 images, 1 and 3 components, 3 write x 3 read interlaces, palette", "Gen_GRImage.tla", "Gen_GRImage_cover.cfg", "cover", {"sample": 15000}),
               ("the same under RLE/deflate/skphuff compression, chunk shapes, chunked+compressed, int16/int32/float32", "Gen_GRImage.tla", "Gen_GRImage_layouts.cfg", "cover", {"sample": 15000}),
+              ("every history of <= 5 calls on a 2x2 one-component image (write, read, palette, interlace request, reopen in between)", "Gen_GRImage.tla", "Gen_GRImage_hist.cfg", "cover", {"sample": 4000}),
               ("simulate depth 12: images up to 4x3, 1-4 components, all storage configurations", "Gen_GRImage.tla", "Gen_GRImage_sim.cfg", "sim", {"num_quick": 100, "num": 3000, "depth": 13, "sample": 5000})],
         mutators={"Create", "Write", "ReqIl", "WriteLut", "Reopen"}, need_actions=["ReqIl", "ReadLut", "Info", "Reopen"],
         tv_quick=8000, sig_fn=comp_mixed,
